@@ -133,8 +133,11 @@ func H_C14_Seq(shape int) {
 	s := c14Store()
 	s.PrepareFaultAt = verifrt.Intn("prepare_fault_at", 0, 3)
 	s.FaultAt = verifrt.Intn("fault_at", 0, 4)
-	// (driver.ErrBadConn cannot be injected at the driver: database/sql retries bad
-	// connections itself, so the eviction branch of the cache is outside this harness)
+	// the statement fault may be a lost connection when it hits a call inside a
+	// transaction (driver.ErrBadConn, sticky for that transaction); outside
+	// transactions database/sql retries bad connections itself, below the boundary
+	s.BadConn = verifrt.Bool("bad_conn")
+	verifrt.Assume(verifrt.Or(!s.BadConn, s.FaultAt != 0))
 	verifrt.Assume(verifrt.Or(s.PrepareFaultAt == 0, s.FaultAt == 0))
 	db := openPrepared(s, &gorm.Config{SkipDefaultTransaction: true})
 	// the same operations in non-prepared mode on a twin store: the reference result
